@@ -23,6 +23,10 @@ def main(tier, seed):
         for kind in race.CLOSERS:
             for pre in ((0,) if tier == "quick" else (0, 1)):
                 jobs.append(("props.race", "run_race", (n, dict(kinds=[kind], pre=pre, keep=True, max_paths=1500 if tier == "quick" else 6000, seed=seed), "C05")))
+    # longer histories over a small vocabulary: complete / back / cancel / error on a two-step flow (back followed by cancel of the old instance etc.)
+    for i in range(4):
+        jobs.append(("props.flow", "run_scenario", ("two_steps", dict(policy="fifo", k=3 if tier == "quick" else 4, kinds=["Next", "Back", "Cancel", "Error"], oracles=("c05",), targets="acts",
+                                                                     skip_running_acts=True, part=(i, 4), max_paths=1500 if tier == "quick" else 20000, seed=seed), "C05")))
     c.run_jobs(jobs)
     return c.finish(
         rule="one path = scenario x valuation class of the symbolic inputs x (target task, symbolic action kind, declared output supplied or omitted) per script step x schedule; "
